@@ -2,10 +2,6 @@
 From ZV Require Import Prelude Block CodecPb Dec BlockAccept.
 Open Scope Z_scope.
 
-(* byte strings arrive as (B length value): big-endian value in [length] bytes *)
-Definition B (n z : Z) : bytes := be_bytes (Z.to_nat n) z.
-Definition BB (l : list bytes) : bytes := concat l.
-
 Definition body_eqb (a b : ABody) : bool :=
   (ab_version a =? ab_version b) && (ab_chainid a =? ab_chainid b) && (ab_blocktype a =? ab_blocktype b) &&
   bytes_eqb (ab_hash a) (ab_hash b) && bytes_eqb (ab_prev a) (ab_prev b) && (ab_height a =? ab_height b) &&
@@ -51,9 +47,13 @@ Definition mom_preimage_run (i : Mom * bytes * bytes) : bytes :=
 (* MomentumContent.Bytes *)
 Definition content_bytes_run (c : list AHeader) : bytes := content_bytes c.
 (* Serialize / Deserialize *)
-Definition ab_ser_run (x : AB) : bytes := serialize_ab x.
+(* out: the wire bytes, and whether the model's decoder maps them back to the same block *)
+Definition ab_ser_run (x : AB) : bytes * bool :=
+  (serialize_ab x, dres_eqb ab_eqb (deserialize_ab (serialize_ab x)) (DOk x)).
+Definition ser_eqb (a b : bytes * bool) : bool := bytes_eqb (fst a) (fst b) && Bool.eqb (snd a) (snd b).
 Definition ab_de_run (bs : bytes) : dres AB := deserialize_ab bs.
-Definition mom_ser_run (m : Mom) : bytes := serialize_mom m.
+Definition mom_ser_run (m : Mom) : bytes * bool :=
+  (serialize_mom m, dres_eqb mom_eqb (deserialize_mom (serialize_mom m)) (DOk m)).
 Definition mom_de_run (bs : bytes) : dres Mom := deserialize_mom bs.
 (* NewMomentumContent on headers *)
 Definition content_sort_run (hs : list AHeader) : list AHeader := new_momentum_content hs.
